@@ -20,6 +20,8 @@ fn run_line(line: &str) -> String {
     match toks[0] {
         "CODE" => codes::run_code(args),
         "MATCH" => codes::run_match(args),
+        "MATCHN" => codes::run_matchn(args),
+        "RRMATCH" => codes::run_rrmatch(args),
         "HDR" => header::run_hdr(args),
         "PARSE" => pkt::run_parse(args),
         "NAME" => pkt::run_name(args),
